@@ -7,7 +7,7 @@
     endless loop), the response serialises to JSON and carries errors whenever it carries no (or
     null) data.
 
-    WHAT IS PROVED HERE.  [pipeline_model VS F ES bs opname VE W] (Pipe/Compose.v) is ONE executable
+    WHAT IS PROVED HERE.  [pipeline_order pi VS F ES bs opname VE W] (Pipe/Compose.v) is ONE executable
     model of graphql.Execute on the BYTES [bs] of the request text: the parser model of C06 driven
     by the scanner model of C07 ([FrontEnd.parse_document_bytes]), the glue of
     graphql.ParseAndValidate, the validator model of C04 ([validate_model repaired]) on the
@@ -20,9 +20,11 @@
     modelled and proved total in C05 and is an INPUT here; [W]: the resolver-outcome world (what
     every resolver returns for every object value: nil, typed nil, leaf values of every Go kind
     incl. NaN / Inf, slices, object values, errors).
-    Quantification: ALL byte strings, operation names, variable verdicts, worlds, schemas in both
-    encodings — the only hypothesis is [type_names_okb ES] (no zero byte in a type name, which
-    schema.New guarantees).
+    [pi]: the order in which Go's [range] visits the entries of the validator's maps (any
+    permutation: [order_ok pi]; [pipeline_model] = [pipeline_order id_order] is what the check runs).
+    Quantification: ALL byte strings, operation names, variable verdicts, worlds, map orders,
+    schemas in both encodings — the only hypotheses are [order_ok pi] (a range visits each entry
+    once) and [type_names_okb ES] (no zero byte in a type name, which schema.New guarantees).
 
       C03_front_never_panics      ParseAndValidate from bytes: never Panic / OutOfFuel, any schema
       C03_pipeline_never_panics   the whole pipeline never returns Panic / OutOfFuel
@@ -30,6 +32,7 @@
       C03_response_serialisable   every number in the data of a response has a JSON form
       C03_data_or_errors          no (or null) data => at least one error
       C03_parsed_positions_distinct   the parser's half of C01's hypothesis, across the conversion
+      C03_pipeline_order_independent  the response does not depend on Go's map iteration order
 
     WHAT IS PARTIAL, and why.
     - C01's totality theorem needs [doc_ok] ("what validation guarantees", as an execution over
@@ -54,7 +57,7 @@
       round 1 (…_partial below) and the hostile stream remain the evidence. *)
 From Coq Require Import List NArith.
 From ApiFu Require Import Base.Sexp.
-From ApiFu Require Syn.Ast Syn.ParserModel Syn.FrontEnd Vld.Ast Exe.ExecData Exe.ExecModel Exe.ExecSpec Exe.ExecHyps.
+From ApiFu Require Syn.Ast Syn.ParserModel Syn.FrontEnd Vld.Ast Vld.ValidatorModel Vld.ProofsCommon Exe.ExecData Exe.ExecModel Exe.ExecSpec Exe.ExecHyps.
 From ApiFu Require Import Pipe.PipelineModel Pipe.PipelineProofs Pipe.Convert Pipe.Compose Pipe.PositionsProofs Pipe.ComposeProofs.
 Import ListNotations.
 
@@ -63,65 +66,65 @@ Import ListNotations.
 (** graphql.ParseAndValidate: for EVERY byte string, schema and feature set the outcome is syntax
     errors, validation errors or the accepted document — never a panic, never fuel exhaustion
     (C06_parse_document_bytes_never_panics + C04_validate_no_panic across [vld_of_syn]) *)
-Theorem C03_front_never_panics : forall VS F bs,
-  match parse_and_validate_bytes VS F bs with FPanic _ | FOutOfFuel _ => False | _ => True end.
+Theorem C03_front_never_panics : forall pi, Vld.ProofsCommon.order_ok pi -> forall VS F bs,
+  match parse_and_validate_order pi VS F bs with FPanic _ | FOutOfFuel _ => False | _ => True end.
 Proof. exact front_never_panics. Qed.
 
 (** ... and what each outcome means for the stages *)
-Theorem C03_front_cases : forall VS F bs,
-  (exists e es tree, parse_and_validate_bytes VS F bs = FSyntax e es /\
+Theorem C03_front_cases : forall pi, Vld.ProofsCommon.order_ok pi -> forall VS F bs,
+  (exists e es tree, parse_and_validate_order pi VS F bs = FSyntax e es /\
                      Syn.FrontEnd.parse_document_bytes bs = Syn.ParserModel.Out tree (e :: es)) \/
-  (exists d e es, parse_and_validate_bytes VS F bs = FInvalid e es /\
+  (exists d e es, parse_and_validate_order pi VS F bs = FInvalid e es /\
                   Syn.FrontEnd.parse_document_bytes bs = Syn.ParserModel.Out (Some d) [] /\
-                  validate_doc VS F d = Vld.Ast.Done (e :: es)) \/
-  (exists d, parse_and_validate_bytes VS F bs = FAccepted d /\
+                  validate_doc pi VS F d = Vld.Ast.Done (e :: es)) \/
+  (exists d, parse_and_validate_order pi VS F bs = FAccepted d /\
              Syn.FrontEnd.parse_document_bytes bs = Syn.ParserModel.Out (Some d) [] /\
-             validate_doc VS F d = Vld.Ast.Done []).
+             validate_doc pi VS F d = Vld.Ast.Done []).
 Proof. exact front_cases. Qed.
 
 (** graphql.Execute: no stage of the composed model panics or runs out of fuel, for every byte
     string, operation name, variable verdict, world and schema *)
-Theorem C03_pipeline_never_panics : forall VS F ES bs opname VE W,
+Theorem C03_pipeline_never_panics : forall pi, Vld.ProofsCommon.order_ok pi -> forall VS F ES bs opname VE W,
   Exe.ExecHyps.type_names_okb ES = true ->
-  match pipeline_model VS F ES bs opname VE W with PPanic _ | POutOfFuel _ => False | _ => True end.
+  match pipeline_order pi VS F ES bs opname VE W with PPanic _ | POutOfFuel _ => False | _ => True end.
 Proof. exact pipeline_never_panics_cases. Qed.
 
 (** ... and when every @skip/@include condition has a boolean value the outcome is a response
     (syntax errors / validation errors / data and execution errors / the variable-coercion error),
     or the report that a stage contract does not hold *)
-Theorem C03_pipeline_total : forall VS F ES bs opname VE W,
-  Exe.ExecHyps.type_names_okb ES = true -> request_evaluable VS F bs opname VE ->
-  is_response (pipeline_model VS F ES bs opname VE W) = true \/
-  contract_broken (pipeline_model VS F ES bs opname VE W) = true.
+Theorem C03_pipeline_total : forall pi, Vld.ProofsCommon.order_ok pi -> forall VS F ES bs opname VE W,
+  Exe.ExecHyps.type_names_okb ES = true -> request_evaluable pi VS F bs opname VE ->
+  is_response (pipeline_order pi VS F ES bs opname VE W) = true \/
+  contract_broken (pipeline_order pi VS F ES bs opname VE W) = true.
 Proof. exact pipeline_total. Qed.
 
 (** the complete classification: a response with data or errors and serialisable data; a broken
     contract; or conditions without boolean value *)
-Theorem C03_pipeline_cases : forall VS F ES bs opname VE W,
+Theorem C03_pipeline_cases : forall pi, Vld.ProofsCommon.order_ok pi -> forall VS F ES bs opname VE W,
   Exe.ExecHyps.type_names_okb ES = true ->
-  let r := pipeline_model VS F ES bs opname VE W in
+  let r := pipeline_order pi VS F ES bs opname VE W in
   (is_response r = true /\ data_or_errors_p r = true /\ serialisable_p r = true) \/
   contract_broken r = true \/
   (unevaluable r = true /\
-   exists d o E, VE = Some E /\ parse_and_validate_bytes VS F bs = FAccepted d /\
+   exists d o E, VE = Some E /\ parse_and_validate_order pi VS F bs = FAccepted d /\
                  Exe.ExecModel.get_operation (exe_of_syn d) opname = Exe.ExecModel.GOp o /\
                  Exe.ExecHyps.dirs_evaluable (Exe.ExecData.doc_of (exe_of_syn d) o) E = false).
 Proof. exact pipeline_cases. Qed.
 
 (** every response's data has a JSON form: no NaN, no infinity anywhere in it (C01_exec_data_finite
     through the composition) *)
-Theorem C03_response_serialisable : forall VS F ES bs opname VE W j errs,
+Theorem C03_response_serialisable : forall pi, Vld.ProofsCommon.order_ok pi -> forall VS F ES bs opname VE W j errs,
   Exe.ExecHyps.type_names_okb ES = true ->
-  pipeline_model VS F ES bs opname VE W = PExecuted (Some j) errs ->
+  pipeline_order pi VS F ES bs opname VE W = PExecuted (Some j) errs ->
   Exe.ExecData.json_finite j = true.
 Proof. exact pipeline_serialisable. Qed.
 
 (** a response without data (syntax errors, validation errors, a refused operation or variable
     value, a propagated null at the root) carries at least one error *)
-Theorem C03_data_or_errors : forall VS F ES bs opname VE W,
+Theorem C03_data_or_errors : forall pi, Vld.ProofsCommon.order_ok pi -> forall VS F ES bs opname VE W,
   Exe.ExecHyps.type_names_okb ES = true ->
-  is_response (pipeline_model VS F ES bs opname VE W) = true ->
-  data_or_errors_p (pipeline_model VS F ES bs opname VE W) = true.
+  is_response (pipeline_order pi VS F ES bs opname VE W) = true ->
+  data_or_errors_p (pipeline_order pi VS F ES bs opname VE W) = true.
 Proof. exact pipeline_data_or_errors. Qed.
 
 (** the parser's half of C01's hypothesis [doc_positions_okb], for every byte string: whatever
@@ -135,10 +138,20 @@ Theorem C03_parsed_positions_distinct : forall bs d es opname o,
     (map Exe.ExecData.sel_pos (Exe.ExecHyps.all_sels (Exe.ExecData.doc_of (exe_of_syn d) o))) = true.
 Proof. exact parsed_positions_distinct. Qed.
 
+(** Go's map iteration order is not an input of the response: under any two orders the composed
+    model gives the same outcome, except that the validation errors of a rejected document may be
+    listed differently (C04_verdict_deterministic through the composition) *)
+Theorem C03_pipeline_order_independent : forall pi1 pi2 VS F ES bs opname VE W,
+  Vld.ProofsCommon.order_ok pi1 -> Vld.ProofsCommon.order_ok pi2 ->
+  pipeline_order pi1 VS F ES bs opname VE W = pipeline_order pi2 VS F ES bs opname VE W \/
+  (exists e1 l1 e2 l2, pipeline_order pi1 VS F ES bs opname VE W = PInvalid e1 l1 /\
+                       pipeline_order pi2 VS F ES bs opname VE W = PInvalid e2 l2).
+Proof. exact pipeline_order_independent. Qed.
+
 (** ** the open obligation, and what follows from it.
-    [validate_establishes_doc_ok VS F ES] :=
+    [validate_establishes_doc_ok pi VS F ES] :=
       forall bs d opname o E,
-        parse_and_validate_bytes VS F bs = FAccepted d ->
+        parse_and_validate_order pi VS F bs = FAccepted d ->
         get_operation (exe_of_syn d) opname = GOp o ->
         let D := doc_of (exe_of_syn d) o in
         dirs_evaluable D E = true -> doc_ok ES D E (default_fuel D) (default_fuel D) = true
@@ -146,11 +159,11 @@ Proof. exact parsed_positions_distinct. Qed.
     [validate_ok_doc_ok]; the composed model checks its conclusion on every run instead.
     [text_positions_small bs]: every selection of the parsed text starts below line 2^24 and
     column 2^32 (a bound on the size of the request text). *)
-Theorem C03_validate_establishes_doc_ok_partial : forall VS F ES bs opname VE W,
+Theorem C03_validate_establishes_doc_ok_partial : forall pi, Vld.ProofsCommon.order_ok pi -> forall VS F ES bs opname VE W,
   Exe.ExecHyps.type_names_okb ES = true ->
-  validate_establishes_doc_ok VS F ES -> text_positions_small bs ->
-  request_evaluable VS F bs opname VE ->
-  is_response (pipeline_model VS F ES bs opname VE W) = true.
+  validate_establishes_doc_ok pi VS F ES -> text_positions_small bs ->
+  request_evaluable pi VS F bs opname VE ->
+  is_response (pipeline_order pi VS F ES bs opname VE W) = true.
 Proof. exact pipeline_response_if_obligations. Qed.
 
 (** ** the glue of graphql.go over observed stage verdicts (round 1; still what covers Subscribe,
@@ -183,6 +196,7 @@ Print Assumptions C03_pipeline_cases.
 Print Assumptions C03_response_serialisable.
 Print Assumptions C03_data_or_errors.
 Print Assumptions C03_parsed_positions_distinct.
+Print Assumptions C03_pipeline_order_independent.
 Print Assumptions C03_validate_establishes_doc_ok_partial.
 Print Assumptions C03_execute_total_partial.
 Print Assumptions C03_execute_data_or_errors_partial.
